@@ -547,6 +547,9 @@ func (v *visitor) BuiltinNode(node *ast.BuiltinNode) reflect.Type {
 
 func (v *visitor) ClosureNode(node *ast.ClosureNode) reflect.Type {
 	t := v.visit(node.Node)
+	if t == nil {
+		t = interfaceType // the closure's body is nil (or a nil-safe miss)
+	}
 	return reflect.FuncOf([]reflect.Type{interfaceType}, []reflect.Type{t}, false)
 }
 
